@@ -1,6 +1,9 @@
 (* C08 - the PQR file is a faithful, re-readable serialisation of the model.
    Property theorems only; model in Model/PqrFormat.v (guards fixed_ok / ws_ok /
    num_ok / in_quantifier are defined there), proofs in Proofs/PqrFormat.v.
+   The model is /repo WITH the repairs of C08-F4, C08-F5, the z|charge|radius
+   fusion and C08-F7 (print_pqr puts a blank at every field boundary;
+   from_pqr_line skips "#" lines).
 
    FULL STATEMENTS over the property's quantifier (serials to millions, resSeq
    -9999..99999, insertion codes, 1-4 character names, |coordinate| <= 99999.999):
@@ -9,14 +12,19 @@
            read_fixed (pqr_string cf a) = expected_fixed cf a
      (W) forall cf a, in_quantifier a = true ->
            from_pqr_line (ws_line cf a) = PAtom (expected_ws cf a)
-           (and the insertion code recoverable from the tokens)
 
    Both are REFUTED by the faithful model - theorems C08_*_refuted below, each
    with a witness inside the quantifier that the harness replays on the real
-   code.  What is proved for ALL atoms is (F) under fixed_ok and (W) under
-   ws_ok (C08_*_partial), i.e. exactly while every rendered field fits its
-   columns and the tokens stay separated. *)
-From Coq Require Import String List ZArith NArith.
+   code: the column capacities (serial, resSeq, coordinates: C08-F1..F3, both
+   layouts) and the two ambiguities of the token grammar (digit chain id,
+   digit insertion code: C08-F6, C08-F8).  What is proved for ALL atoms is (F)
+   under fixed_ok and (W) under ws_ok = fixed_ok + non-empty names + chain id
+   and insertion code not a digit (C08_*_partial), including chain id with a
+   4-character resSeq and insertion codes (C08_ws_chain_res_seq_roundtrip,
+   C08_ws_ins_code_roundtrip - the repaired C08-F4 / C08-F5), and the "#"
+   trailer of mmCIF input (C08_ws_file_roundtrip_partial with is_cif = true,
+   the repaired C08-F7). *)
+From Coq Require Import String List ZArith NArith Bool.
 From PV Require Import Lib.Strings Lib.Decimal Model.PqrFormat Proofs.PqrFormat.
 Import ListNotations.
 Local Open Scope string_scope.
@@ -60,37 +68,81 @@ Proof. exact fixed_coord_refuted. Qed.
 
 (* ---- --whitespace layout ---- *)
 
-(* for ALL atoms in the region where tokens stay separated: pdb2pqr's own
-   reader applied to the re-spaced line returns the atom *)
+(* for ALL atoms within the column capacities whose chain id / insertion code
+   is not a digit: pdb2pqr's own reader applied to the re-spaced line returns
+   the atom - type, serial, names, chain (with --keep-chain), resSeq, insertion
+   code, x y z at 10^-3, charge and radius at 10^-4 *)
 Theorem C08_ws_roundtrip_partial : forall (cf : bool) (a : atom),
   ws_ok cf a = true -> from_pqr_line (ws_line cf a) = PAtom (expected_ws cf a).
 Proof. exact ws_roundtrip. Qed.
 
-(* whole atom lists through print_biomolecule_atoms, print_pqr, read_pqr *)
-Theorem C08_ws_file_roundtrip_partial : forall (cf : bool) (l : list atom),
+(* the guard is exactly: column capacities, non-empty names, no digit chain id
+   (when printed), no digit insertion code *)
+Theorem C08_ws_guard : forall (cf : bool) (a : atom),
+  ws_ok cf a =
+  fixed_ok cf a && negb (is_empty (a_name a)) && negb (is_empty (a_res_name a))
+  && (negb cf || negb (any_char is_digit (a_chain a)))
+  && negb (any_char is_digit (a_ins a)).
+Proof. reflexivity. Qed.
+
+(* whole atom lists through print_biomolecule_atoms, print_pqr, read_pqr, for
+   PDB input and for mmCIF input (is_cif = true: TER lines dropped, "#" line
+   appended - repaired C08-F7) *)
+Theorem C08_ws_file_roundtrip_partial : forall (cf is_cif : bool) (l : list atom),
   all_ok (ws_ok cf) 0 l ->
-  read_pqr (file_chunks true false (print_atoms cf l)) =
+  read_pqr (file_chunks true is_cif (print_atoms cf l)) =
   inl (map (expected_ws cf) (renumbered 0 l)).
 Proof. exact ws_file_roundtrip. Qed.
 
-(* --keep-chain: chain id + resSeq of 4 characters fuse into one token *)
-Theorem C08_ws_chain_res_seq_refuted :
-  exists a, in_quantifier a = true /\ fixed_ok true a = true /\ a_res_seq a = 1000%Z /\
-    tokens (ws_line true a) =
-      ["ATOM"; "1"; "CA"; "ALA"; "A1000"; "1.000"; "-2.500"; "3.125"; "-0.5000"; "1.8000"] /\
-    from_pqr_line (ws_line true a) = PValueError.
-Proof. exact ws_chain_res_seq_refuted. Qed.
+(* repaired C08-F4: --keep-chain, chain id and resSeq (also of 4 characters)
+   are read back separately, for ALL atoms within the guard *)
+Theorem C08_ws_chain_res_seq_roundtrip : forall a : atom,
+  ws_ok true a = true -> is_empty (a_chain a) = false ->
+  exists p, from_pqr_line (ws_line true a) = PAtom p /\
+    p_chain p = Some (a_chain a) /\ p_res_seq p = a_res_seq a.
+Proof. exact ws_chain_res_seq_roundtrip. Qed.
 
-(* resSeq + insertion code fuse into one token, with or without --keep-chain *)
-Theorem C08_ws_ins_code_refuted :
-  exists a, in_quantifier a = true /\ fixed_ok true a = true /\ a_ins a = "B" /\
-    tokens (ws_line false a) =
-      ["ATOM"; "1"; "CA"; "ALA"; "12B"; "1.000"; "-2.500"; "3.125"; "-0.5000"; "1.8000"] /\
-    from_pqr_line (ws_line false a) = PValueError /\
-    from_pqr_line (ws_line true a) = PValueError.
-Proof. exact ws_ins_code_refuted. Qed.
+(* repaired C08-F5: resSeq and insertion code are read back separately, with or
+   without --keep-chain, for ALL atoms within the guard *)
+Theorem C08_ws_ins_code_roundtrip : forall (cf : bool) (a : atom),
+  ws_ok cf a = true -> is_empty (a_ins a) = false ->
+  exists p, from_pqr_line (ws_line cf a) = PAtom p /\
+    p_res_seq p = a_res_seq a /\ p_ins p = Some (a_ins a).
+Proof. exact ws_ins_code_roundtrip. Qed.
 
-(* a digit as chain id is silently read as resSeq; every later field shifts *)
+(* the former refutation witnesses of the repaired defects now round-trip:
+   chain A + resSeq 1000, resSeq 12 + iCode B, charge -10.5 / radius 10.5 (no
+   longer fused with z / the charge), the "#" trailer of mmCIF input *)
+Theorem C08_ws_repaired_witnesses :
+  (in_quantifier wit_chain_resseq = true /\ ws_ok true wit_chain_resseq = true /\
+   ws_line true wit_chain_resseq =
+     "ATOM       1  CA   ALA A 1000        1.000   -2.500    3.125  -0.5000  1.8000" ++ nl /\
+   from_pqr_line (ws_line true wit_chain_resseq) = PAtom (expected_ws true wit_chain_resseq)) /\
+  (in_quantifier wit_inscode = true /\ ws_ok true wit_inscode = true /\
+   ws_ok false wit_inscode = true /\
+   ws_line false wit_inscode =
+     "ATOM       1  CA   ALA     12 B      1.000   -2.500    3.125  -0.5000  1.8000" ++ nl /\
+   ws_line true wit_inscode =
+     "ATOM       1  CA   ALA A   12 B      1.000   -2.500    3.125  -0.5000  1.8000" ++ nl /\
+   p_ins (expected_ws false wit_inscode) = Some "B" /\
+   from_pqr_line (ws_line false wit_inscode) = PAtom (expected_ws false wit_inscode) /\
+   from_pqr_line (ws_line true wit_inscode) = PAtom (expected_ws true wit_inscode)) /\
+  (ws_ok false wit_charge = true /\
+   tokens (ws_line false wit_charge) =
+     ["ATOM"; "1"; "CA"; "ALA"; "12"; "1.000"; "-2.500"; "3.125"; "-10.5000"; "1.8000"] /\
+   from_pqr_line (ws_line false wit_charge) = PAtom (expected_ws false wit_charge)) /\
+  (ws_ok false wit_radius = true /\
+   tokens (ws_line false wit_radius) =
+     ["ATOM"; "1"; "CA"; "ALA"; "12"; "1.000"; "-2.500"; "3.125"; "-0.5000"; "10.5000"] /\
+   from_pqr_line (ws_line false wit_radius) = PAtom (expected_ws false wit_radius)) /\
+  (file_chunks true true (print_atoms false [base_atom]) =
+     [ws_line false (with_serial 1 base_atom); "#" ++ nl] /\
+   from_pqr_line ("#" ++ nl) = PNone /\
+   read_pqr (file_chunks true true (print_atoms false [base_atom])) =
+     inl [expected_ws false (with_serial 1 base_atom)]).
+Proof. exact ws_repaired_witnesses. Qed.
+
+(* C08-F6: a digit as chain id is silently read as resSeq; every later field shifts *)
 Theorem C08_ws_digit_chain_refuted :
   exists a p, in_quantifier a = true /\ fixed_ok true a = true /\ a_chain a = "1" /\
     a_res_seq a = 12%Z /\
@@ -98,28 +150,16 @@ Theorem C08_ws_digit_chain_refuted :
     p_chain p = None /\ p_res_seq p = 1%Z /\ p_x p = PF false 12 0 /\ p_radius p = PF true 5000 4.
 Proof. exact ws_digit_chain_refuted. Qed.
 
-(* outside physical sizes: charge <= -10 e fuses with z, radius >= 10 A with the charge *)
-Theorem C08_ws_charge_radius_fused :
-  (fixed_ok false wit_charge = true /\
-   tokens (ws_line false wit_charge) =
-     ["ATOM"; "1"; "CA"; "ALA"; "12"; "1.000"; "-2.500"; "3.125-10.5000"; "1.8000"] /\
-   from_pqr_line (ws_line false wit_charge) = PValueError) /\
-  (fixed_ok false wit_radius = true /\
-   tokens (ws_line false wit_radius) =
-     ["ATOM"; "1"; "CA"; "ALA"; "12"; "1.000"; "-2.500"; "3.125"; "-0.500010.5000"] /\
-   from_pqr_line (ws_line false wit_radius) = PValueError).
-Proof. exact ws_charge_radius_fused. Qed.
-
-(* CIF input: the "#" line print_pqr appends makes pdb2pqr's own reader raise on
-   an otherwise faithful file *)
-Theorem C08_ws_cif_trailer_refuted :
-  ws_ok false base_atom = true /\
-  file_chunks true true (print_atoms false [base_atom]) =
-    [ws_line false (with_serial 1 base_atom); "#" ++ nl] /\
-  read_pqr (file_chunks true true (print_atoms false [base_atom])) = inr PValueError /\
-  read_pqr (file_chunks true false (print_atoms false [base_atom])) =
-    inl [expected_ws false (with_serial 1 base_atom)].
-Proof. exact ws_cif_trailer_refuted. Qed.
+(* C08-F8: a digit as insertion code is silently read as x; every later field shifts *)
+Theorem C08_ws_digit_ins_refuted :
+  exists a p, in_quantifier a = true /\ fixed_ok false a = true /\ a_ins a = "1" /\
+    a_x a = mkfx false 1000 /\
+    tokens (ws_line false a) =
+      ["ATOM"; "1"; "CA"; "ALA"; "12"; "1"; "1.000"; "-2.500"; "3.125"; "-0.5000"; "1.8000"] /\
+    from_pqr_line (ws_line false a) = PAtom p /\
+    p_res_seq p = 12%Z /\ p_ins p = None /\ p_x p = PF false 1 0 /\ p_y p = PF false 1000 3 /\
+    p_radius p = PF true 5000 4.
+Proof. exact ws_digit_ins_refuted. Qed.
 
 (* ---- printing-side lemmas reused by C09 ---- *)
 
@@ -132,7 +172,15 @@ Theorem C08_chainflag_only_col22 : forall a : atom,
 Proof. exact chainflag_only_col22. Qed.
 
 (* the five numeric tokens after re-spacing are the five numeric column slices
-   before it, in order, whatever the name/chain/resSeq part looks like *)
+   before it, in order, whatever the name/chain/resSeq part looks like; _wide:
+   the same under the full column widths of charge (8) and radius (7) *)
+Theorem C08_respace_keeps_numeric_tokens_wide : forall (cf : bool) (a : atom),
+  num_fits a = true ->
+  exists front,
+    tokens (ws_line cf a) = (front ++ num_tokens a)%list /\
+    map (fun c => strip (slice (fst c) (snd c) (pqr_string cf a))) num_cols = num_tokens a.
+Proof. exact respace_keeps_numeric_tokens_wide. Qed.
+
 Theorem C08_respace_keeps_numeric_tokens : forall (cf : bool) (a : atom),
   num_ok a = true ->
   exists front,
@@ -164,11 +212,22 @@ Example C08_nonvacuous :
   pqr_string true edge_atom =
     "HETATM99999 HD11LIG1 Z-999X   -999.9999999.999  -0.000-99.999999.9999" /\
   read_fixed (pqr_string true edge_atom) = expected_fixed true edge_atom /\
+  ws_ok true edge_atom = true /\
+  ws_line true edge_atom =
+    "HETATM 99999 HD11 LIG1 Z -999 X   -999.999 9999.999   -0.000 -99.9999 99.9999" ++ nl /\
+  from_pqr_line (ws_line true edge_atom) = PAtom (expected_ws true edge_atom) /\
   ws_ok true edge_atom_ws = true /\ ws_ok false edge_atom_ws = true /\
   in_quantifier edge_atom_ws = true /\
   ws_line true edge_atom_ws =
-    "HETATM 99999 HD11 LIG1 Z -99    -999.999 9999.999   -0.000 -9.9999 0.0000" ++ nl /\
-  from_pqr_line (ws_line true edge_atom_ws) = PAtom (expected_ws true edge_atom_ws).
+    "HETATM 99999 HD11 LIG1 Z  -99     -999.999 9999.999   -0.000  -9.9999  0.0000" ++ nl /\
+  from_pqr_line (ws_line true edge_atom_ws) = PAtom (expected_ws true edge_atom_ws) /\
+  in_quantifier edge_atom_ws4 = true /\ ws_ok true edge_atom_ws4 = true /\
+  ws_ok false edge_atom_ws4 = true /\
+  p_chain (expected_ws true edge_atom_ws4) = Some "Z" /\
+  p_res_seq (expected_ws true edge_atom_ws4) = (-999)%Z /\
+  p_ins (expected_ws true edge_atom_ws4) = Some "X" /\
+  from_pqr_line (ws_line true edge_atom_ws4) = PAtom (expected_ws true edge_atom_ws4) /\
+  from_pqr_line (ws_line false edge_atom_ws4) = PAtom (expected_ws false edge_atom_ws4).
 Proof. exact guards_nonvacuous. Qed.
 
 Print Assumptions C08_fixed_roundtrip_partial.
@@ -177,14 +236,16 @@ Print Assumptions C08_fixed_serial_refuted.
 Print Assumptions C08_fixed_res_seq_refuted.
 Print Assumptions C08_fixed_coord_refuted.
 Print Assumptions C08_ws_roundtrip_partial.
+Print Assumptions C08_ws_guard.
 Print Assumptions C08_ws_file_roundtrip_partial.
-Print Assumptions C08_ws_chain_res_seq_refuted.
-Print Assumptions C08_ws_ins_code_refuted.
+Print Assumptions C08_ws_chain_res_seq_roundtrip.
+Print Assumptions C08_ws_ins_code_roundtrip.
+Print Assumptions C08_ws_repaired_witnesses.
 Print Assumptions C08_ws_digit_chain_refuted.
-Print Assumptions C08_ws_charge_radius_fused.
-Print Assumptions C08_ws_cif_trailer_refuted.
+Print Assumptions C08_ws_digit_ins_refuted.
 Print Assumptions C08_chainflag_only_col22.
 Print Assumptions C08_respace_keeps_numeric_tokens.
+Print Assumptions C08_respace_keeps_numeric_tokens_wide.
 Print Assumptions C08_serial_is_position.
 Print Assumptions C08_order_preserved.
 Print Assumptions C08_ws_file_lines.
